@@ -131,6 +131,7 @@ var (
 		pr.PContent:       content,
 		pr.PDisplay:       display,
 		pr.PFloat:         floating,
+		pr.PPosition:      position,
 		pr.PFontSize:      fontSize,
 		pr.PFontWeight:    fontWeight,
 		pr.PLineHeight:    lineHeight,
@@ -731,6 +732,16 @@ func floating(computer *ComputedStyle, _ pr.KnownProp, _value pr.CssProperty) pr
 	if value == "footnote" && computer.parentStyle == nil {
 		// the root element can not be moved to the footnote area of its own page
 		return pr.String("none")
+	}
+	return value
+}
+
+// Compute the “position“ property.
+func position(computer *ComputedStyle, _ pr.KnownProp, _value pr.CssProperty) pr.CssProperty {
+	value := _value.(pr.BoolString)
+	if value.Bool && computer.isRootElement() {
+		// the root element can not be moved to a margin box of its own page
+		return pr.BoolString{String: "static"}
 	}
 	return value
 }
